@@ -10,7 +10,7 @@
 // whether a Create / Update / Remove is passed on at all.  Here histories of
 // well-formed messages are generated from a model of the rules a session has
 // (every op is legal: create what is not there, update or remove what is
-// there; no rule named twice in one message; rule ids 1-3 in every id space so
+// there; no rule named twice in one message; rule ids 0-3 in every id space so
 // that a FAR, a QER and a URR with the same number coexist), and
 //
 // A Create for a rule the session already has is drawn now and then; the data
@@ -41,6 +41,7 @@ type Case struct {
 type Stats struct {
 	SameNumber    bool // a rule was removed (or updated) while a rule of another kind with the same id existed
 	RefusedCreate bool // a Create for a rule that exists (refused by the data plane)
+	Rejected      bool // such a message was not answered 'accepted': the case ends there, nothing is concluded
 	Ops           int
 }
 
@@ -109,7 +110,7 @@ func Gen(t *rapid.T) Case {
 			if kind == "BAR" {
 				maxID = 2
 			}
-			id := uint32(rapid.IntRange(1, maxID).Draw(t, "id"))
+			id := uint32(rapid.IntRange(0, maxID).Draw(t, "id"))
 			if named[fmt.Sprintf("%s%d", kind, id)] {
 				continue
 			}
@@ -198,6 +199,18 @@ func Run(c Case, assert map[string]bool) (v *vcore.Violation, stt Stats) {
 				}
 			}
 			if !answered {
+				dup := false
+				for _, op := range ops {
+					if op.Verb == "create" && have[op.Kind][op.ID] {
+						dup = true
+					}
+				}
+				if dup {
+					// the message re-creates a rule the session has: go-upf answers 'accepted' and leaves the installed rule alone,
+					// but rejecting the message is as good an answer; what was applied of it is then unknown to this model
+					stt.Rejected = true
+					return nil, stt
+				}
 				return vcore.Violatef("mod-not-accepted", "message %d %s: Modification of a live session not accepted", mi, brief(ops)), stt
 			}
 		}
